@@ -286,7 +286,9 @@ def c03(tier):
         if n >= 3:
             v += [{"k": "PolarizedFractalEfficiency", "n": n, "c": [E, sma(2)]}, {"k": "PolarizedFractalEfficiency", "n": n, "c": [E, sma(3)]}]
         return v
-    pairs = [([], [7]), ([100], [-50, 7]), ([7, 100, -50], [100]), ([-50, -50, 100, 7, 100], [7, 7])]
+    # prefixes mix large foreign values with values of the suffix alphabet (ties between a leaving and an entering value)
+    pairs = [([], [7]), ([100], [-50, 7]), ([7, 100, -50], [100]), ([-50, -50, 100, 7, 100], [7, 7]),
+             ([3, 100, 0], [-2]), ([0, 0, 3, -2], [3, -50, 1, 0, 3])]
     if tier != "quick":
         pairs += [([100, 7], [7, 100]), ([1000000, -999999, 3], []), ([5] * 9, [100, -50] * 6)]
     # model level: the machine state is a function of the ghost window of the last K inputs (Apalache, all integers, all lengths)
@@ -559,10 +561,10 @@ def c17(tier):
         st = 4 if tier == "quick" else 5
         half = len(cat) // 2
         for h, part in enumerate((cat[:half], cat[half:])):
-            run.submit(p2_job, "twin-n%d-%d" % (n, h), {"cfgs": part, "inputs": [1, 2], "unit": 1, "slots": 3, "depth": 99, "steps": st}, "C17",
+            run.submit(p2_job, "twin-n%d-%d" % (n, h), {"cfgs": part, "inputs": [1, 2], "unit": 1, "slots": 4, "depth": 99, "steps": st}, "C17",
                        exhaustive=True, gen="SFTwin")
     chn = chains2(catalogue(2, positive=True), sma(2))
-    run.submit(p2_job, "twin-chains", {"cfgs": chn, "inputs": [1, 2], "unit": 1, "slots": 3, "depth": 99, "steps": 4}, "C17", exhaustive=True, gen="SFTwin")
+    run.submit(p2_job, "twin-chains", {"cfgs": chn, "inputs": [1, 2], "unit": 1, "slots": 4, "depth": 99, "steps": 4}, "C17", exhaustive=True, gen="SFTwin")
     # exhaustive small depth on two slots: every interleaving of new/update/last/clone/drop
     small = [sma(2), {"k": "Rsi", "n": 2}, {"k": "LaguerreFilter", "g": [1, 2]}, {"k": "CyberCycle", "n": 1}]
     run.submit(p2_job, "sf-exhaustive", {"cfgs": small, "inputs": [1, 2], "unit": 1, "slots": 2, "depth": 5 if tier == "quick" else 6}, "C17", exhaustive=True)
